@@ -171,47 +171,75 @@ def rule_cmp(prog, rep):
         rep.finding("C04.CMP", fn.name, "limit-test", "expected exactly one comparison of current with limit, found %d" % len(lim), fn.loc())
     else:
         b, dest, op, _, _, line = lim[0]
-        if op != "Gt":
-            rep.finding("C04.CMP", fn.name, "limit-test", "limit test is `current %s limit`, must be strict `current > limit`" % op, fn.loc(line))
+        # strictness, whichever way round the test is written: `current > limit` / `!(current <= limit)`
+        if op not in ("Gt", "Le"):
+            rep.finding("C04.CMP", fn.name, "limit-test", "limit test is `current %s limit`, must be the strict `current > limit` (or its negation `current <= limit`)" % op, fn.loc(line))
         else:
-            rep.instance("C04.CMP", "limit test `current > limit` (strict) at %s" % fn.loc(line))
+            rep.instance("C04.CMP", "limit test `current %s limit` (strict `>` boundary) at %s" % (op, fn.loc(line)))
         if store_blocks and not all(fn.dominates(sb, b) for sb in store_blocks[:1]):
             rep.finding("C04.CMP", fn.name, "order", "limit test is not dominated by the increment", fn.loc(line))
-        # the returned value is this comparison
-        ret_ok = False
-        for rb in fn.return_blocks():
-            pass
-        for bb in sorted(live):
-            for s in fn.stmts(bb):
-                if s[0] == "=" and s[1][0] == 0 and not s[1][1]:
-                    src = op_local(s[2][1]) if s[2][0] == "use" else None
-                    if src is not None:
-                        from ..flow import resolve_copy_chain
-                        if resolve_copy_chain(fn, src, dest) is False:
-                            ret_ok = True
-        if not ret_ok:
-            rep.finding("C04.CMP", fn.name, "return", "return value is not the (un-negated) result of the limit test", fn.loc())
-        else:
-            rep.instance("C04.CMP", "return value = result of limit test")
-        # undo on reached side: exactly one decrement, none on the other
-        for bb in sorted(live):
-            info = fn.switch_info(bb)
-            if info and info.get("kind") == "bool":
-                from ..flow import resolve_copy_chain
-                neg = resolve_copy_chain(fn, info["local"], dest)
-                if neg is None:
+        # semantic table over all paths: P := current > limit
+        from ..tables import enum_paths, return_value_on_path
+        decs = set(x.block for x in fn.live_calls() if re.search(REL, x.name))
+
+        def p_of(kind, a, bb, val):
+            """truth of P implied by a comparison fact, or None"""
+            if {a, bb} != {"arg1.current", "arg1.limit"}:
+                return None
+            o = kind
+            if a == "arg1.limit":
+                o = {"Gt": "Lt", "Lt": "Gt", "Ge": "Le", "Le": "Ge"}.get(o, o)
+            if o == "Gt":
+                return val
+            if o == "Le":
+                return not val
+            return None
+
+        rows = []
+        undecided = False
+        for atoms, rb, path in enum_paths(fn, inner_loops="cut"):
+            P = None
+            for f in atoms:
+                if f[0] == "cmp":
+                    v = p_of(f[1], f[2], f[3], f[4])
+                    if v is not None:
+                        P = v
+            rv = return_value_on_path(fn, path) or ""
+            m = re.fullmatch(r"(Gt|Ge|Lt|Le)\((arg1\.\w+), (arg1\.\w+)\)", rv)
+            if rv in ("const:true", "const:false"):
+                ret = rv == "const:true"
+            elif m and P is not None and p_of(m.group(1), m.group(2), m.group(3), True) is not None:
+                ret = P if p_of(m.group(1), m.group(2), m.group(3), True) else (not P)
+            elif m and P is None:
+                # the returned comparison is the only test: split the row
+                t = p_of(m.group(1), m.group(2), m.group(3), True)
+                if t is None:
+                    undecided = True
                     continue
-                e = info["edges"]
-                t_reached, t_ok = (e[False], e[True]) if neg else (e[True], e[False])
-                decs = set(x.block for x in fn.live_calls() if re.search(REL, x.name))
-                _, ex_r = count_paths(fn, t_reached, lambda q: 1 if q in decs else 0)
-                _, ex_o = count_paths(fn, t_ok, lambda q: 1 if q in decs else 0)
-                cr = set().union(*ex_r.values()) if ex_r else set()
-                co = set().union(*ex_o.values()) if ex_o else set()
-                if cr != {1} or co != {0}:
-                    rep.finding("C04.CMP", fn.name, "undo", "undo of the increment: reached side decrement counts %s (want {1}), other side %s (want {0})" % (sorted(cr), sorted(co)), fn.loc())
-                else:
-                    rep.instance("C04.CMP", "reached side undoes the increment exactly once; other side never")
+                nd = sum(1 for q in path if q in decs)
+                rows.append((True, t, nd))
+                rows.append((False, not t, nd))
+                continue
+            else:
+                undecided = True
+                continue
+            if P is None:
+                undecided = True
+                continue
+            rows.append((P, ret, sum(1 for q in path if q in decs)))
+        if undecided or not rows:
+            rep.fail("UNDECIDED rule=C04.CMP check_and_increment: a path does not decide `current > limit` or returns something else than the test / a constant")
+        else:
+            bad_ret = [r for r in rows if r[1] != r[0]]
+            bad_undo = [r for r in rows if r[2] != (1 if r[0] else 0)]
+            if bad_ret:
+                rep.finding("C04.CMP", fn.name, "return", "check_and_increment returns %s on a path where `current > limit` is %s" % (bad_ret[0][1], bad_ret[0][0]), fn.loc())
+            else:
+                rep.instance("C04.CMP", "returns true exactly on the paths where current > limit (%d paths)" % len(rows))
+            if bad_undo:
+                rep.finding("C04.CMP", fn.name, "undo", "undo of the increment: %d decrement(s) on a path where `current > limit` is %s (want 1 when reached, 0 otherwise)" % (bad_undo[0][2], bad_undo[0][0]), fn.loc())
+            else:
+                rep.instance("C04.CMP", "reached paths undo the increment exactly once; other paths never")
     # 3. high-water mark: high := current under current > (or >=) high, after the increment
     hi = [c for c in cmps if c[3] == "arg1.current" and c[4] == "arg1.high"]
     hi_store = [(b, s) for b in sorted(live) for s in fn.stmts(b)
@@ -343,7 +371,11 @@ def rule_mute(prog, rep):
     push_err = prog.fn(r"parser::Parser::<'input>::push_err$")
     next_token = prog.fn(r"parser::Parser::<'input>::next_token$")
     limit_err = prog.fn(r"parser::Parser::<'input>::limit_err$")
-    allowed = {push_err.uid, next_token.uid}
+    from ..core import private_helpers_of
+    # private helpers that are only ever called from an allowed writer count as part of it
+    # (an `extract function` refactoring must not change the verdict)
+    allowed = {push_err.uid, next_token.uid} | private_helpers_of(prog, [push_err, next_token])
+    mute_writers = {limit_err.uid, next_token.uid} | private_helpers_of(prog, [limit_err, next_token])
     nsites = 0
     for fn in prog.fns.values():
         if fn.crate != "apollo_parser":
@@ -370,7 +402,7 @@ def rule_mute(prog, rep):
                     v = op_const(s[2][1]) if s[2][0] == "use" else None
                     if not (v and v[1] == "false"):
                         rep.finding("C04.MUTE", fn.name, "accept-errors-reset", "`accept_errors` is assigned something other than `false` (errors after a limit would be reported again)", fn.loc(s[3][0]))
-                    elif fn.uid not in (limit_err.uid, next_token.uid):
+                    elif fn.uid not in mute_writers:
                         rep.finding("C04.MUTE", fn.name, "accept-errors-writer", "`accept_errors = false` outside limit_err/next_token", fn.loc(s[3][0]))
                     else:
                         rep.instance("C04.MUTE", "%s: accept_errors = false at %s" % (fn.name, fn.loc(s[3][0])))
@@ -396,6 +428,7 @@ def rule_mute(prog, rep):
                 else:
                     rep.instance("C04.MUTE", "limit_err: push_err precedes accept_errors = false")
     # next_token: on is_limit() == true, accept_errors = false before the push
+    next_token = prog.inline(next_token, keep=r"Parser::<'input>::(push_err|limit_err|err|err_and_pop)$|lexer::")
     isl = [c for c in next_token.live_calls() if re.search(r"error::Error::is_limit$", c.name)]
     pushes = [c for c in next_token.live_calls() if re.search(r"vec::Vec::<T, A>::push$", c.name) and (arg_path_s(next_token, c, 0) or "").endswith(".errors")]
     if len(isl) != 1 or not pushes:
